@@ -256,6 +256,30 @@ static void do_small(long hi)
     }
 }
 
+/* operands built from whole 8-byte limbs (and 4-byte half limbs) over a boundary alphabet, for both operands independently: the carry/borrow
+ * cases of a word-at-a-time implementation (limb all ones in both operands with an incoming borrow, 0 - 0 with borrow, ff + 00 with carry ...) */
+static void do_limbs(long item)
+{
+    static const unsigned char LA[6][8] = { { 0 }, { 1 }, { 0xff,0xff,0xff,0xff,0xff,0xff,0xff,0xff }, { 0xfe,0xff,0xff,0xff,0xff,0xff,0xff,0xff }, { 0,0,0,0,0,0,0,0x80 }, { 0xff,0xff,0xff,0xff,0xff,0xff,0xff,0x7f } };
+    static const size_t TAILS[4] = { 0, 1, 4, 7 }; int k = 1 + (int) (item / 36), xa0 = (int) (item % 36) / 6, ya0 = (int) (item % 6); unsigned long c, n; unsigned ti, tv;
+    unsigned char x[40], y[40];
+    if (k > 3) return;
+    for (n = 1, c = 1; (int) c < k; c++) n *= 36;
+    for (c = 0; c < n; c++) {
+        unsigned long v = c; int l;
+        memcpy(x, LA[xa0], 8); memcpy(y, LA[ya0], 8);
+        for (l = 1; l < k; l++) { memcpy(x + 8 * l, LA[(v % 36) / 6], 8); memcpy(y + 8 * l, LA[v % 6], 8); v /= 36; }
+        for (ti = 0; ti < 4; ti++) for (tv = 0; tv < 3; tv++) {
+            size_t len = (size_t) (8 * k) + TAILS[ti];
+            if (TAILS[ti] == 0 && tv) continue;
+            memset(x + 8 * k, tv == 0 ? 0x00 : tv == 1 ? 0xff : 0x01, TAILS[ti]); memset(y + 8 * k, tv == 0 ? 0xff : tv == 1 ? 0xff : 0x00, TAILS[ti]);
+            arith_case("limbs", x, y, len, (int) ((c + ti) & 15), (long) item, (long) (c * 16 + ti * 4 + tv));
+            cmp_case("limbs", x, y, len, (int) ((c + ti + 3) & 15), (long) item, (long) (c * 16 + ti * 4 + tv));
+            inc_case("limbs", x, len, (int) (ti & 15), (long) item);
+        }
+    }
+}
+
 /* long operands (above the dense range): every single-bit and single-byte difference, opposite differences at the ends, carries through the whole length */
 static const size_t LONGL[] = { 131, 191, 255, 256, 257, 263, 264, 265, 511, 512, 513, 1023, 1024, 1025, 2048, 4095, 4096, 4097 };
 static void do_long(long idx)
@@ -308,6 +332,7 @@ int main(void)
     vf_parallel(16, 0, MAXL + 1, do_len, fin);
     vf_parallel(16, 0, 512, do_small, fin);
     vf_parallel(16, 0, (long) (sizeof LONGL / sizeof LONGL[0]), do_long, fin);
+    vf_parallel(16, 0, 108, do_limbs, fin);
     /* memzero on larger lengths */
     { size_t l; for (l = 131; l <= 4400; l += (thorough ? 1 : 37)) memzero_case(l, (int) (l & 15)); fin(); }
     return 0;
